@@ -235,7 +235,7 @@ CHECKS = {
     },
     "C04": {
         "level": "exploration",
-        "rule": "rapid-generated free-running simulations: 1-2 honest peers plus 0-4 adversaries acting on timers (mutated header batches, a strictly lighter fork announced again and again, filter-header liars of three provable kinds, garbage bytes, silence after the handshake, inflated advertised height with empty headers replies, flapping), generated connection delays (connection order), and an honest-side script of extensions and reorganisations over virtual time. Safety is sampled every 250 virtual ms: BestBlock is a block of a valid chain from genesis and its committed filter header is the true one. Bounded liveness: within 30 virtual minutes after the honest chain stops changing BestBlock equals the honest best tip with the true filter header. Non-trivial = an adversary sent at least one harmful message before convergence, or the honest side reorganised; distinct = distinct case JSON",
+        "rule": "rapid-generated free-running simulations: 1-2 honest peers plus 0-4 adversaries acting on timers (mutated header batches, a strictly lighter fork announced again and again, filter-header liars of three provable kinds, garbage bytes, silence after the handshake, inflated advertised height with empty headers replies, flapping), generated connection delays (connection order), and an honest-side script of extensions and reorganisations over virtual time. Safety is sampled every 250 virtual ms: BestBlock is a block of a valid chain from genesis and its committed filter header is the true one. Bounded liveness: within 30 virtual minutes after the honest chain stops changing BestBlock equals the honest best tip with the true filter header. Non-trivial = an adversary sent at least one harmful message before convergence, or the honest side reorganised; distinct = distinct case JSON Unit netsim-checkpointed: the same free-running simulation on chains of 1001-2300 blocks, so that the filter headers are fetched by the checkpointed path (fresh, partly pre-filled or lagging stores); the filter-header adversaries lie from heights that reach back over several checkpoint intervals, one more adversary lies in its filter checkpoints only (correct headers), and half of the generated networks carry hard-coded filter-header checkpoints (true values, below every fork point).",
         "assumptions": NETSIM_ASSUME + [
             "'eventually' is approximated by a 30-virtual-minute deadline (far above every timeout and back-off on the path); a miss is reported with the trace",
             "filter-header liars are only let in after an honest peer has completed its handshake (otherwise a lie is committed with no honest responder around, which the property does not exclude)",
@@ -245,6 +245,9 @@ CHECKS = {
             {"name": "netsim", "module": "harness", "pkg": "./checks/c04", "test": "TestC04", "tags": "verif",
              "quick": {"checks": 20, "shards": 16, "timeout": 900, "shrink": "15s"},
              "thorough": {"checks": 300, "shards": 16, "timeout": 5400, "shrink": "60s"}},
+            {"name": "netsim-checkpointed", "module": "harness", "pkg": "./checks/c04", "test": "TestC04Big", "tags": "verif",
+             "quick": {"checks": 12, "shards": 8, "timeout": 900, "shrink": "15s", "regress_n": 8},
+             "thorough": {"checks": 150, "shards": 16, "timeout": 5400, "shrink": "60s", "regress_n": 40}},
         ],
     },
     "C09": {
